@@ -32,6 +32,43 @@ def run(ctx, chk):
     r2(ctx, chk)
     r3(ctx, chk)
     r4(ctx, chk)
+    previous_locales_flag_rule(ctx, chk, "C13.R5")
+
+
+def previous_locales_flag_rule(ctx, chk, rule):
+    """remembering the locales of earlier strings (try_previous_locales) makes results depend on what was parsed before; it is
+    the caller's explicit choice: every DateDataParser the library builds itself leaves it off or forwards the caller's flag"""
+    n = 0
+    for f in list(ctx.ix.funcs.values()):
+        if f.module.rel.startswith("dateparser/data/") or not f.module.rel.startswith("dateparser/"):
+            continue
+        for c in iter_own_nodes(f.node):
+            if not (isinstance(c, ast.Call) and ast.unparse(c.func).split(".")[-1] == "DateDataParser"):
+                continue
+            n += 1
+            kw = {k.arg: k.value for k in c.keywords if k.arg}
+            pos = c.args[3] if len(c.args) > 3 else None     # DateDataParser(languages, locales, region, try_previous_locales, ...)
+            v = kw.get("try_previous_locales", pos)
+            ok = v is None or (isinstance(v, ast.Constant) and not v.value) or (
+                isinstance(v, ast.Name) and v.id == "try_previous_locales" and v.id in f.params())
+            chk.ob(rule, "%s: the parser built at line %d does not remember earlier locales on its own" % (f.qual, c.lineno), ok,
+                   "try_previous_locales=%s on a parser the library creates (the module-level default parser serves every plain "
+                   "parse() call of the process): a later string is tried first in the locale of an earlier one" % (ast.unparse(v) if v is not None else None),
+                   key={"function": f.key, "construct": "DateDataParser(try_previous_locales)"}, file=f.file, function=f.qual, line=c.lineno,
+                   text=" ".join(ast.unparse(c).split())[:100])
+    chk.floor(rule + ".parsers", n, 3, "DateDataParser constructions inside the library")
+    # the parameter's default is off
+    init = ctx.ix.func(DDP + ".__init__")
+    a = init.node.args
+    names = [x.arg for x in a.args]
+    dflt = None
+    if "try_previous_locales" in names:
+        i = names.index("try_previous_locales") - (len(names) - len(a.defaults))
+        if 0 <= i < len(a.defaults):
+            dflt = a.defaults[i]
+    chk.ob(rule, "DateDataParser(try_previous_locales=...) defaults to off", isinstance(dflt, ast.Constant) and not dflt.value,
+           "default is %s" % (ast.unparse(dflt) if dflt is not None else None),
+           key={"function": init.key, "construct": "try_previous_locales default"}, file=init.file, function=init.qual, line=init.node.lineno)
 
 
 def r4(ctx, chk):
